@@ -101,10 +101,38 @@ def db_operation_facts(model, opname):
     from .facts import callable_op, ordered_args
 
     fn = model.method("UnitDatabase", opname)
-    rets = [n for n in ast.walk(fn.node) if isinstance(n, ast.Return) and isinstance(n.value, ast.Call)]
+    from .terms import Resolver
+    from .srcmodel import own_nodes
+
+    res = Resolver(model, fn)
+    all_rets = sorted((n for n in own_nodes(fn.node) if isinstance(n, ast.Return)), key=lambda n: n.lineno)
+    # a return delegates when its value is the call of one of the two shared routines, directly or through a local
+    SHARED = ("_DoOperationWithSameQuantity", "_DoOperationResultingInNewQuantity")
+
+    shared_calls = [c for c in own_nodes(fn.node) if isinstance(c, ast.Call) and isinstance(c.func, ast.Attribute) and c.func.attr in SHARED]
+
+    def delegating_call(r):
+        """The call of the shared routine whose result this return hands back (as it is, through a local, or
+        unpacked and re-packed in the same order)."""
+        if r.value is None:
+            return None
+        t = res.term(r.value)
+        for c in shared_calls:
+            ct = res.term(c)
+            if t == ct or t == ("tuple", (("sub", ct, ("const", 0)), ("sub", ct, ("const", 1)))):
+                return c
+        return None
+
+    extra = [r for r in all_rets if delegating_call(r) is None]
+    rets = [r for r in all_rets if delegating_call(r) is not None]
+    fn_extra_returns = extra
     if len(rets) != 1:
-        raise AnalysisError("UnitDatabase.%s: expected a single delegating return" % opname)
-    call = rets[0].value
+        if extra and not rets:
+            raise AnalysisError("UnitDatabase.%s: no return delegates to the shared operation routine (another algorithm: the checker cannot tell what it computes)" % opname)
+        if len(rets) != 1:
+            raise AnalysisError("UnitDatabase.%s: expected a single delegating return" % opname)
+    call = delegating_call(rets[0])
+    db_operation_facts.extra_returns = fn_extra_returns
     callee = call.func.attr if isinstance(call.func, ast.Attribute) else None
     cf = model.lookup("UnitDatabase", callee) if callee else None
     if cf is not None:
